@@ -298,6 +298,47 @@ theorem C21_cache_transparent {α : Type} (compute : String → Option α) (cap 
     getCachedSeq compute cap [] ts = ts.map compute :=
   getCachedSeq_eq compute cap ts [] (by intro k v h; simp [Lru.get] at h)
 
+/-! ### configuration updates -/
+
+theorem Instance.run_eq {α : Type} : ∀ (ts : List String) (i : Instance α), LruSound i.compute i.cache →
+    (i.run ts).1 = ts.map i.compute
+  | [], _, _ => rfl
+  | t :: ts, i, hs => by
+    obtain ⟨h1, h2⟩ := getCached_sound i.compute i.cap i.cache t hs
+    simp only [Instance.run, List.map_cons]
+    rw [h1]
+    have := Instance.run_eq ts { i with cache := (getCached i.compute i.cap i.cache t).2 } h2
+    simp only at this
+    rw [this]
+
+/-- **C21, configuration update.**  Whatever was asked of the old ring (and is cached there), every
+    answer of its replacement is what the replacement's own configuration computes: a new ring
+    instance starts with an empty cache, so nothing computed under the previous overrides, shard
+    size or node list can survive the update. -/
+theorem C21_update_transparent {α : Type} (old : Instance α) (histOld : List String)
+    (computeNew : String → Option α) (capNew : Nat) (histNew : List String) :
+    (update old histOld computeNew capNew histNew).2 = histNew.map computeNew := by
+  simp only [update]
+  exact Instance.run_eq histNew (Instance.new computeNew capNew) (by intro k v h; simp [Instance.new, Lru.get] at h)
+
+/-- Handing the old ring's cache to the replacement is only sound if every cached entry is what
+    the NEW configuration computes (`LruSound`); otherwise stale sub-rings are served: here the old
+    configuration gave tenant "big" one node, the new one gives it two, and a replacement that
+    inherits the cache keeps answering one. -/
+example :
+    let old : Instance Nat := Instance.new (fun _ => some 1) 10
+    let cacheAfter := (old.run ["big"]).2.cache
+    (({ compute := fun t => if t = "big" then some 2 else some 1, cap := 10, cache := cacheAfter } : Instance Nat).run ["big"]).1
+      = [some 1] ∧
+    (update old ["big"] (fun t => if t = "big" then some 2 else some 1) 10 ["big"]).2 = [some 2] := by decide
+
+/-- the LRU is constructed in the hashring's constructor, the hashring keeps it in its own field, and
+    the shared metrics value carries no cache -/
+theorem C21_fact_cache_per_instance :
+    Thanos.Facts.shuffleShardLruConstructedIn = ["newShuffleShardHashring"] ∧
+    Thanos.Facts.shuffleShardMetricsFields = ["requestsTotal", "hitsTotal", "numItems", "maxItems", "evicted", "reg", "key", "users"] ∧
+    Thanos.Facts.shuffleShardCacheField = "cache: cache" := by decide
+
 /-! ### regenerated facts -/
 
 /-- the matcher types `getShardSize` knows (the empty type counts as exact, as in `isExactMatcher`) -/
